@@ -694,7 +694,7 @@ def check_C13(tier, seed):
         "".join("\t%s,\n" % go_str_lit(g) for g in gs), maxlen, width)
     ov = RepoOverlay(w, ".", "main", {"zz_verif_main.go": open(os.path.join(VERIF, "harness", "main_common.go")).read(),
                                       "zz_verif_c13.go": open(os.path.join(VERIF, "harness", "c13_main.go")).read(),
-                                      "zz_verif_c13data.go": extra}, ["Harness_C13text", "Harness_C13mut"])
+                                      "zz_verif_c13data.go": extra}, ["Harness_C13text", "Harness_C13mut", "Harness_C13chain"])
     N = 3 if quick else 4
     B = 16
     agg1 = overlay_explore(rep, "C13", ov, "Harness_C13text$", 0, (N + 1) * B - 1, 240 if quick else 3000, "c13_text", sample_every=97, max_triage=4)
@@ -716,15 +716,14 @@ def check_C13(tier, seed):
     else:
         args = [gi * maxlen + p for gi, g in enumerate(gs) for p in range(0, len(g.encode()) - width + 1, 1 if gi < 4 else 3)]
     agg2 = overlay_explore(rep, "C13", ov, "Harness_C13mut$", 0, 0, 120 if quick else 900, "c13_mut", sample_every=197, max_triage=4, args=set(args))
-    if not quick:
-        # two adjacent symbolic bytes at a stride of positions of the short grammars
-        pass
-    agg = merge_agg(agg1, agg2 or {})
+    # reference chains of depth 3, 8 and 34 (the last one exhibits finding F18: 2^d visits in the nullable analysis)
+    agg3 = overlay_explore(rep, "C13", ov, "Harness_C13chain$", 0, 0, 120, "c13_chain", sample_every=1, max_triage=2, args={3, 8, 34}, max_steps=30_000_000)
+    agg = merge_agg(merge_agg(agg1, agg2 or {}), agg3 or {})
     agg.pop("_samples", None) if False else None
     # cross-check of the harness staging against the real binary: exit status and no panic trace
     nat_ok = 0
     want = {"parse error": (3,), "build error": (5,), "accepted": (0, 6)}
-    smp = [s for s in agg.get("_samples", []) if s["notes"]]
+    smp = [s for s in agg.get("_samples", []) if s["notes"] and s["harness"] in ("Harness_C13text", "Harness_C13mut")]
     rnd.shuffle(smp)
     for k, s in enumerate(smp[:60]):
         m = s["model"]
